@@ -362,17 +362,29 @@ class SpecGen:
     return d
 
   def bounds(self, a, b):
+    """Range bounds; zero (falsy) bounds and lo == hi are over-represented on purpose."""
     r = self.r
     lo = r.randint(a, b) if r.chance(0.5) else None
     hi = r.randint(a, b) if r.chance(0.5) else None
+    if lo is not None and r.chance(0.2):
+      lo = 0
+    if hi is not None and r.chance(0.2):
+      hi = 0
+    if lo is not None and hi is None and r.chance(0.1):
+      hi = lo
     if lo is not None and hi is not None and lo > hi:
       lo, hi = hi, lo
     return lo, hi
 
   def sizes(self):
+    """Size bounds; max_size == 0, size == 0 and min == max are over-represented on purpose."""
     r = self.r
     mn = r.randint(0, 3) if r.chance(0.5) else None
     mx = r.randint(0, 4) if r.chance(0.5) else None
+    if mx is not None and r.chance(0.25):
+      mx = 0
+    if mn is not None and r.chance(0.15):
+      mx = mn
     if mn is not None and mx is not None and mn > mx:
       mn, mx = mx, mn
     return mn, mx
@@ -494,7 +506,7 @@ class SpecGen:
     elif k in ('list', 'tuple') and 'elems' not in d:
       tag = 'l' if k == 'list' else 't'
       mn, mx = d.get('mn') or 0, d.get('mx')
-      for n in sorted({0, mn - 1, mn, mn + 1, (mx if mx is not None else mn + 1), (mx + 1 if mx is not None else mn + 2)}):
+      for n in sorted({0, mn - 1, mn, mn + 1, (mx if mx is not None else mn + 1), (mx + 1 if mx is not None else mn + 2), 3}):
         if n >= 0:
           out.append([tag, [self.valid(d['elem']) for _ in range(n)]])
       n = max(mn, 1)
@@ -610,8 +622,8 @@ class SpecGen:
     k = d['k']
     if k == 'int':
       f = r.choice(['lo', 'hi'])
-      d[f] = None if (d.get(f) is not None and r.chance(0.3)) else (
-          (d[f] + r.choice([-2, -1, 1, 2])) if d.get(f) is not None else r.randint(-2, 6))
+      d[f] = None if (d.get(f) is not None and r.chance(0.3)) else (0 if r.chance(0.15) else (
+          (d[f] + r.choice([-2, -1, 1, 2])) if d.get(f) is not None else r.randint(-2, 6)))
       if d['lo'] is not None and d['hi'] is not None and d['lo'] > d['hi']:
         d['hi'] = d['lo']
     elif k == 'float':
@@ -645,6 +657,8 @@ class SpecGen:
       f = r.choice(['mn', 'mx'])
       if d.get(f) is not None and r.chance(0.3):
         d[f] = None
+      elif r.chance(0.2):
+        d[f] = 0
       else:
         d[f] = max(0, (d[f] if d.get(f) is not None else r.randint(0, 3)) + r.choice([-1, 1, 1, 2]))
       if d.get('mn') is not None and d.get('mx') is not None and d['mn'] > d['mx']:
@@ -730,6 +744,37 @@ class SpecGen:
         d.pop('fz', None)
       else:
         d['d'] = v
+
+
+def frozen_pair(g):
+  """A (child, base) pair of specs that are BOTH frozen, mostly over an Enum base: the child is an
+  Int / Str / Float / Enum frozen to one candidate of the base's value list (the same as the base's
+  frozen value or another one); sometimes both are wrapped as the same field of a Dict (schema
+  inheritance)."""
+  r = g.r
+  pool = r.choice(ENUM_POOLS[:3])
+  vals = copy.deepcopy(r.sample(pool, r.randint(2, len(pool))))
+  x = copy.deepcopy(r.choice(vals))
+  y = copy.deepcopy(r.choice(vals)) if r.chance(0.75) else copy.deepcopy(r.choice(pool))
+  base = {'k': 'enum', 'vals': vals, 'pool': ENUM_POOLS.index(pool), 'n': 0, 'd': x, 'fz': True}
+  if r.chance(0.15):
+    base = {'k': {'i': 'int', 's': 'str', 'f': 'float', 'b': 'bool'}[x[0]], 'n': 0, 'd': x, 'fz': True, 'lo': None, 'hi': None, 'rx': None}
+  kind = {'i': 'int', 's': 'str', 'f': 'float', 'b': 'bool'}.get(y[0], 'int')
+  c = r.below(3)
+  if c == 0:
+    child = {'k': 'enum', 'vals': copy.deepcopy(r.sample(vals, r.randint(1, len(vals)))), 'pool': ENUM_POOLS.index(pool), 'n': 0}
+    if y not in child['vals']:
+      child['vals'].append(copy.deepcopy(y))
+  else:
+    child = {'k': kind, 'n': 0, 'lo': None, 'hi': None, 'rx': None}
+  child['d'] = y
+  child['fz'] = True
+  if r.chance(0.3):
+    child.pop('fz')
+  if r.chance(0.3):
+    child = {'k': 'dict', 'fields': [[['c', 'x'], child]], 'n': 0}
+    base = {'k': 'dict', 'fields': [[['c', 'x'], base]], 'n': 0}
+  return child, base
 
 
 def to_num(b):
